@@ -56,9 +56,11 @@ type Peer struct {
 	Out     io.WriteCloser // closed when the peer ends (the plugin process exits)
 	OutLink *mcrt.Link
 	Hello   []byte
-	V1      bool // legacy framing: bare WorkStartMessage in, bare WorkDoneMessage out, one run
-	Sent    []SentMsg
-	Plans   map[string]RunPlan // by run id; missing = plain work-done
+	// WithDebugLogs: work-done messages carry debug logs (see DebugLogsFor); off = empty, as the SDK's own server sends
+	WithDebugLogs bool
+	V1            bool // legacy framing: bare WorkStartMessage in, bare WorkDoneMessage out, one run
+	Sent          []SentMsg
+	Plans         map[string]RunPlan // by run id; missing = plain work-done
 
 	// observations
 	Started []string
@@ -119,7 +121,7 @@ func (p *Peer) Run() {
 		}
 		p.Started = append(p.Started, "v1")
 		p.Answered["v1"]++
-		_ = p.send("done", "v1", atp.WorkDoneMessage{StepID: ws.StepID, OutputID: "out-v1", OutputData: OutputFor("v1")})
+		_ = p.send("done", "v1", atp.WorkDoneMessage{StepID: ws.StepID, OutputID: "out-v1", OutputData: OutputFor("v1"), DebugLogs: p.debugLogs("v1")})
 		return
 	}
 	for {
@@ -169,7 +171,7 @@ func (p *Peer) Run() {
 					return
 				}
 				_ = p.send("done", runID, atp.RuntimeMessage{MessageID: atp.MessageTypeWorkDone, RunID: runID,
-					MessageData: atp.WorkDoneMessage{StepID: ws.StepID, OutputID: "out-" + runID, OutputData: OutputFor(runID)}})
+					MessageData: atp.WorkDoneMessage{StepID: ws.StepID, OutputID: "out-" + runID, OutputData: OutputFor(runID), DebugLogs: p.debugLogs(runID)}})
 			})
 		case atp.MessageTypeSignal:
 			p.SignalsSeen[m.RunID]++
@@ -179,4 +181,25 @@ func (p *Peer) Run() {
 			return
 		}
 	}
+}
+
+func (p *Peer) debugLogs(runID string) string {
+	if !p.WithDebugLogs {
+		return ""
+	}
+	return DebugLogsFor(runID)
+}
+
+// DebugLogsFor: the debug logs a plugin may attach to its result are free text: empty, several lines, CRLF line ends,
+// a progress bar redrawn with bare carriage returns, no final newline. Chosen by run id so that every session has a mix.
+func DebugLogsFor(runID string) string {
+	menu := []string{"", "one line\n", "first\r\nsecond\r\n", "no newline at the end", "\n\n", "tab\tand \x00 byte\n", "downloading 10%\rdownloading 80%\rdone\n"}
+	h := 0
+	for _, c := range runID {
+		h = h*31 + int(c)
+	}
+	if h < 0 {
+		h = -h
+	}
+	return menu[h%len(menu)]
 }
